@@ -50,7 +50,9 @@ const (
 	XMany2 // 100 long headers (about 11 KiB: three buffer nodes)
 )
 
-var NearMissNames = []string{"", "Content-Lengthx", "Xontent-Length", "Content_Length", "Transfer-Encodin", "Ransfer-Encoding", "Content\rLength", "Transfer\rEncoding", "Content-Length-", "Transfer_Encoding"}
+var NearMissNames = []string{"", "Content-Lengthx", "Xontent-Length", "Content_Length", "Transfer-Encodin", "Ransfer-Encoding", "Content\rLength", "Transfer\rEncoding", "Content-Length-", "Transfer_Encoding",
+	// equal to the framing name only under Unicode case folding (U+017F LATIN SMALL LETTER LONG S folds to s): not a token, not a framing field
+	"Tran\u017ffer-Encoding"}
 
 type Spec struct {
 	Method        string `json:"m"`
@@ -177,12 +179,12 @@ func Build(s Spec) ([]byte, Expect) {
 	if s.NearMiss > 0 {
 		nm := NearMissNames[s.NearMiss]
 		val := "7"
-		if strings.Contains(strings.ToLower(nm), "ransfer") {
+		if strings.Contains(strings.ToLower(nm), "ransfer") || strings.Contains(nm, "\u017f") {
 			val = "chunked"
 		}
 		fmt.Fprintf(&w, "%s: %s\r\n", nm, val)
 		ex.Custom = append(ex.Custom, httpref.Header{Name: nm, Value: val})
-		if strings.ContainsAny(nm, "\r\n") {
+		if strings.ContainsAny(nm, "\r\n") || strings.IndexFunc(nm, func(r rune) bool { return r >= 0x80 }) >= 0 {
 			ex.InvalidName = true
 		}
 	}
